@@ -190,6 +190,10 @@ def rep_cases():
     for kinds in (["normal"] * 4, ["normal", "normal", "readonly", "has01"], ["normal", "full", "has0", "normal"], ["normal", "normal"], ["hasall", "normal", "normal"]):
         for happy in (2, len(kinds)):
             out.append({"kinds": kinds, "happy": happy})
+    # more servers than shares: a failure during allocation forces a second placement round that moves shares
+    out.append({"kinds": ["normal"] * 5, "happy": 4})
+    out.append({"kinds": ["normal"] * 4 + ["has0"], "happy": 4})
+    out.append({"kinds": ["normal"] * 6, "happy": 4})
     return out
 
 
@@ -204,7 +208,7 @@ def run(tier, seed):
     n0 = res.counts.get("executions", 0)
     faults = ["error", "error-after", "disconnect"]
     reps = rep_cases()
-    plan = [(reps, 1, 0), (reps[::2], 0, 1), (reps[1::5], 1, 1)] if tier == "quick" else [(reps, 3, 0), (reps, 1, 2), (reps, 2, 1)]
+    plan = [(reps[:10], 1, 0), (reps[:10:3] + reps[-3:], 0, 1), (reps[1:10:5], 1, 1)] if tier == "quick" else [(reps, 3, 0), (reps, 1, 2), (reps, 2, 1)]
     desc = []
     for sel, d, f in plan:
         sel = [dict(c, fault_kinds=faults if f else []) for c in sel]
